@@ -47,6 +47,11 @@ fn res_unit(r: Result<(), dr::Error>) -> String {
 fn call_hand(b: &mut Builder, name: &str, a: &[&str]) -> Option<String> {
     Some(match (name, a.len()) {
         ("id", 0) => format!("ok:{}", b.id()),
+        // `module_mut()`: the caller installs a header of its own (its bound is documented as inaccurate; `module()` fixes it up)
+        ("module_mut_bound", 1) => {
+            b.module_mut().header = Some(dr::ModuleHeader::new(w(a[0])?));
+            "ok".to_string()
+        }
         ("set_version", 2) => {
             b.set_version(a[0].parse().ok()?, a[1].parse().ok()?);
             "ok".to_string()
